@@ -71,6 +71,8 @@ def _cells():
     # state (re-defining a live Box with a minutely strained cell, the stated rounding bound being 1e-8)
     cells.append(chol_from_params(3.3, 3.3, 3.3, 90, 90, 90) * np.array([[1 + 2e-6], [1 - 3e-6], [1 + 1e-6]]))
     cells.append(np.diag([1.000004, 0.999997, 1.000002]))
+    # integer lengths with fractional tilts: handed over as Python ints in the lengths / hi-lo parameter sets (params_of)
+    cells.append(np.array([[10.0, 0, 0], [2.5, 12.0, 0], [-1.5, 0.75, 15.0]]))
     # seed-dependent generic slice (each again enumerated completely)
     s = SEED % 8
     cells.append(chol_from_params(3.0 + 0.37 * s, 4.3 - 0.21 * s, 5.2 + 0.13 * s,
@@ -103,13 +105,33 @@ def params_of(v, o, pset):
         ang = lambda x, y: float(np.degrees(np.arccos(np.clip(x @ y / np.linalg.norm(x) / np.linalg.norm(y), -1, 1))))
         return dict(a=float(n[0]), b=float(n[1]), c=float(n[2]), alpha=ang(v[1], v[2]),
                     beta=ang(v[0], v[2]), gamma=ang(v[0], v[1]), origin=o.copy())
-    L = np.linalg.cholesky(v @ v.T)
+    L = v.copy() if our_is_norm(v) else np.linalg.cholesky(v @ v.T)
     if pset == 'lengths':
-        return dict(lx=L[0, 0], ly=L[1, 1], lz=L[2, 2], xy=L[1, 0], xz=L[2, 0], yz=L[2, 1], origin=o.copy())
+        return _intify(dict(lx=L[0, 0], ly=L[1, 1], lz=L[2, 2], xy=L[1, 0], xz=L[2, 0], yz=L[2, 1], origin=o.copy()))
     if pset == 'hilos':
-        return dict(xlo=o[0], xhi=o[0] + L[0, 0], ylo=o[1], yhi=o[1] + L[1, 1], zlo=o[2], zhi=o[2] + L[2, 2],
-                    xy=L[1, 0], xz=L[2, 0], yz=L[2, 1])
+        return _intify(dict(xlo=o[0], xhi=o[0] + L[0, 0], ylo=o[1], yhi=o[1] + L[1, 1], zlo=o[2], zhi=o[2] + L[2, 2],
+                            xy=L[1, 0], xz=L[2, 0], yz=L[2, 1]))
     raise KeyError(pset)
+
+
+def _intify(d):
+    """scalar parameters whose value is a whole number are handed over as Python ints (lx=10, not lx=10.0): the same
+    cell in another presentation"""
+    out = {}
+    for k, x in d.items():
+        if np.ndim(x) == 0 and float(x).is_integer() and abs(x) < 1e9:
+            out[k] = int(x)
+        else:
+            out[k] = x
+    return out
+
+
+def _garble(kw):
+    """the caller re-uses the arrays it handed over: a Box must hold its own copy"""
+    for x in kw.values():
+        if isinstance(x, np.ndarray):
+            x *= 1.5
+            x += 0.25
 
 
 def expected_after(v, pset):
@@ -174,16 +196,23 @@ def build(hist):
                 box.set(**kw)
             else:
                 getattr(box, DIRECT[op['pset']])(**kw)
+            _garble(kw)
             mv, mo, cache = expected_after(v, op['pset']), o.copy(), False
         elif k == 'vects=':
-            box.vects = CELLS[op['cell']]
+            kw = dict(v=CELLS[op['cell']].copy())
+            box.vects = kw['v']
+            _garble(kw)
             mv, cache = CELLS[op['cell']].copy(), False
         elif k == 'origin=':
             mo = ORIGINS[op['origin']] * _oscale(mv)
-            box.origin = mo.copy()
+            kw = dict(o=mo.copy())
+            box.origin = kw['o']
+            _garble(kw)
         elif k == 'set_origin_only':
             mo = ORIGINS[op['origin']] * _oscale(mv)
-            box.set(origin=mo.copy())
+            kw = dict(origin=mo.copy())
+            box.set(**kw)
+            _garble(kw)
         elif k == 'observe':
             # read every derived quantity once, so that whatever the implementation caches is populated mid-history
             box.reciprocal_vects
